@@ -49,6 +49,10 @@ func (x *Exec) externCall(st *State, fn *ssa.Function, args []Val, pos token.Pos
 			Eq(at(0), App("Str", "ssub", s, IntLit(0), i)),
 			Eq(at(1), App("Str", "ssub", s, Add(i, IntLit(1)), App("Int", "slen", s))))))
 		return one(res)
+	case "strings.IndexByte":
+		use("strings.IndexByte(s,c) = idx_byte(s,c): the first position of byte c, or -1")
+		x.declIdxByte()
+		return one(mkT("Int", App("Int", "idx_byte", T(0), T(1)).S, types.Typ[types.Int]))
 	case "strings.Split":
 		use("strings.Split: uninterpreted function strings_Split(s,sep), result non-empty when sep is non-empty")
 		r.SeqSort("Str")
